@@ -343,7 +343,7 @@ def run_unit(unit):
         line = int(loc.group(1)) if loc else None
         fid = next((f for a, b, f in ranges if line and a <= line <= b), None)
         errs.append({"message": m.group(1).strip(), "line": line, "function": fid, "text": blk.strip()[:1500]})
-    hard = [e for e in errs if not re.match(r"(postcondition not satisfied|precondition not satisfied|assertion failed|invariant not satisfied|possible arithmetic|possible division|possible bit shift|decreases not satisfied|aborting due|recommendation not met|loop invariant|could not prove termination|cannot show invariant|constructed value may fail|possible truncation|possible cast|Call to non-static function fails to satisfy)", e["message"], re.I)
+    hard = [e for e in errs if not re.match(r"(postcondition not satisfied|precondition not satisfied|assertion failed|invariant not satisfied|possible arithmetic|possible division|possible bit shift|decreases not satisfied|aborting due|recommendation not met|loop invariant|could not prove termination|cannot show invariant|constructed value may fail|possible truncation|possible cast|Call to non-static function fails to satisfy|unable to prove post-condition of closure|unable to prove)", e["message"], re.I)
             and "rlimit" not in e["message"].lower() and "resource limit" not in e["message"].lower()]
     if vr.get("encountered-vir-error") or hard or (not vr.get("success") and not vr.get("errors")):
         raise Broken("verus rejected unit %s (unsupported construct or type error, not a verification failure):\n%s" % (unit, "\n".join(e["text"] for e in hard[:3]) or diag[-2000:]))
